@@ -102,6 +102,11 @@ func loadProgram(repoDir, verifDir string) (*Program, error) {
 		return nil, fmt.Errorf("repository does not type-check: %s", strings.Join(errs, "; "))
 	}
 	prog, _ := ssautil.AllPackages(pkgs, ssa.InstantiateGenerics)
+	for _, sp := range prog.AllPackages() {
+		if isRepoPkg(sp.Pkg.Path()) || sp.Pkg.Path() == "github.com/evanphx/json-patch" {
+			sp.SetDebugMode(true) // source names of locals (for loop invariants)
+		}
+	}
 	prog.Build()
 	p := &Program{RepoDir: repoDir, VerifDir: verifDir, Pkgs: pkgs, SSA: prog, ByPath: map[string]*packages.Package{},
 		Contracts: map[string]*FuncContract{}, Specs: map[string]*SpecFunc{}, Globals: map[string][]*Clause{}, fnByKey: map[string]*ssa.Function{}}
